@@ -15,6 +15,11 @@ BFS = {'quick': 2, 'thorough': 5}          # depth of the explicit-state search 
 BFS_CLAUSES = ('eqref.',)
 
 
+# every query on names no file can have (embedded NUL): exists/is_* say False, open() raises ValueError
+NUL_NAMES = dict(family='observer', size=1, level=0, cfg='K0', t0=['empty', 'dir_d_j'], mut='none',
+                 kw=dict(paths=['n\0', 'd/n\0m']))
+
+
 def spaces(tier):
     """(size, level, cfg, t0 names, gen kwargs, mutation mode)"""
     small = dict(paths=['a', 'd', 'd/x', 'd/y', 'd/e/z'], bf_modes=['ok', 'rb', 'ra'], sb_modes=['ok', 'rb'])
@@ -28,6 +33,7 @@ def spaces(tier):
             # the cache file in its own directory; outputs inside that directory and AT that directory
             dict(size=2, level=1, cfg='K1', t0=['empty'], mut='none',
                  kw=dict(paths=['a', 'k', 'k/x'], bf_modes=['ok', 'rb', 'ra'], sb_modes=['ok'])),
+            NUL_NAMES,
             dict(size=1, level=0, cfg='K0', t0=['empty', 'full', 'dir_d_j', 'file_d'], mut='all'),
             dict(size=1, level=1, cfg='K0', t0=['empty', 'full'], mut='all'),
             dict(size=1, level=2, cfg='K1', t0=['empty', 'dir_d_e'], mut='rel'),
@@ -36,7 +42,7 @@ def spaces(tier):
             dict(size=2, level=1, cfg='K0', t0=['empty'], mut='rel',
                  kw=dict(paths=['a', 'd', 'd/x', 'd/y', 'd/e/z'], bf_modes=['ok', 'rb', 'ra'], sb_modes=['ok', 'rb'])),
         ]
-    return [
+    return [NUL_NAMES] + [
         dict(family='observer', size=1, level=l, cfg=c, t0=list(gen.T0S), mut='all')
         for l in (0, 1) for c in ('K0', 'K1')
     ] + [
